@@ -101,6 +101,27 @@ def run(res, tier, seed, driver_ok):
         stats['worst_derivative_error'] = max(stats['worst_derivative_error'], e)
         if not e <= 1e-6:
             bad('derivative:%s' % mode, 'inverseJacobian * twist differs from the Richardson derivative of the leg lengths', dict(inp, twist=list(V)), e)
+        # the same query with BOTH plate poses given by the caller: the platform placed somewhere else (same relative pose)
+        if n_ % 2 == 0:
+            Gm = sph.T6([rnd.uniform(-3, 3) for _ in range(3)] + [rnd.uniform(-1.2, 1.2) for _ in range(3)])
+            Tb2, Tt2 = Gm @ Tb, Gm @ Tt
+            try:
+                with contextlib.redirect_stdout(io.StringIO()):
+                    iJ2 = np.array(sp.inverseJacobian(tm(Tt2.copy()), tm(Tb2.copy())), dtype=float)
+            except Exception as e:
+                bad('raises:inverseJacobian:%s' % type(e).__name__, 'inverseJacobian(top, bottom) raised', inp, repr(e)[:200]); iJ2 = None
+            if iJ2 is not None:
+                stats['explicit_pose_queries'] = stats.get('explicit_pose_queries', 0) + 1
+                if np.abs(sp.getTopT().gTM() - Tt).max() > 1e-9 or np.abs(sp.getBottomT().gTM() - Tb).max() > 1e-9:
+                    bad('query-moved:inverseJacobian', 'inverseJacobian(top, bottom) changed a plate pose', inp, None)
+                bs2 = (Tb2 @ np.vstack([bj, np.ones((1, 6))]))[:3]; ts2 = (Tt2 @ np.vstack([tj, np.ones((1, 6))]))[:3]
+                lines.append('sp.invjac ' + ' '.join(C.f2h(x) for x in list(bs2.T.reshape(-1)) + list(ts2.T.reshape(-1))))
+                expect.append(('inverseJacobian(top, bottom)', iJ2.reshape(-1), dict(inp, placed_by=Gm.reshape(-1).tolist())))
+                cd2 = lambda hh_: (sph.lengths_ref(bj, tj, Tb2, armh.expm6(V, hh_) @ Tt2) - sph.lengths_ref(bj, tj, Tb2, armh.expm6(V, -hh_) @ Tt2)) / (2 * hh_)
+                d2 = (4 * cd2(1e-4) - cd2(2e-4)) / 3
+                if np.linalg.cond(iJ2) <= 1e4 and not float(np.abs(iJ2 @ V - d2).max()) <= 1e-6 * max(1.0, float(np.linalg.norm(Tt2[:3, 3]))):
+                    bad('derivative:explicit-poses', 'inverseJacobian(top, bottom) * twist differs from the Richardson derivative of the leg lengths at the poses given',
+                        dict(inp, twist=list(V), placed_by=Gm.reshape(-1).tolist()), float(np.abs(iJ2 @ V - d2).max()))
         # statics
         W = np.array([rnd.uniform(-10, 10) for _ in range(6)])
         wn = float(np.linalg.norm(W))
